@@ -55,6 +55,7 @@ type Chan struct {
 	et     types.Type
 	// rendezvous for unbuffered channels (scheduled mode)
 	recvWaiting int
+	handoff     bool // an unbuffered value was handed to a receiver blocked in select (it must take it)
 	name        string
 	timer       *timerState
 }
